@@ -8,6 +8,8 @@ from props import treelib as T
 
 ID = "C06"
 LEAN_MODULES = ["Ccp.Props.C06"]
+# bound of the escalated quick run (source fingerprint changed -> thorough generator): keeps that run near two minutes
+ESCALATE_MAX_CASES = 80000
 RULE = ("histories of 1..6 editing operations (list insert/append/pop, list-level insert_before/after by regex, object-level "
         "insert_before/after, delete, append_to_family with explicit/auto/no indent, replace_text, re_sub, commit) over 10 seed "
         "configs and random configs of 2..10 lines with duplicate texts, prefix texts (Eth1/Eth10) and regex metacharacters; "
